@@ -62,6 +62,20 @@ def gen_line(rnd, kind, ops=True, full=False):
                 o.append("c:%d" % rnd.randrange(256))
             if full and rnd.random() < 0.3:
                 o.append("r:%d" % rnd.choice([0, 3, 1, 221]))
+            if full and rnd.random() < 0.35:
+                # repeated setter / remove calls in random order: a setter must find its element wherever earlier calls left it
+                extra = []
+                for _ in range(rnd.choice([2, 3, 5])):
+                    c = rnd.random()
+                    if c < 0.4 and kind in ("beacon", "probe_resp"):
+                        extra.append("s:" + rssid(rnd))
+                    elif c < 0.7 and kind in ("beacon", "probe_resp", "assoc_resp", "reassoc_resp"):
+                        extra.append("c:%d" % rnd.randrange(256))
+                    elif c < 0.85:
+                        extra.append("r:%d" % rnd.choice([0, 3, 1, 221]))
+                    else:
+                        extra.append("a:%d:%s" % (rnd.choice([0, 3, 7]), bytes(rnd.randrange(1, 256) for _ in range(rnd.choice([1, 2, 5]))).hex()))
+                o += extra
         if kind in ("action", "action_noack"):
             total = 0
             for _ in range(rnd.choice([0, 1, 2, 6])):
